@@ -23,6 +23,7 @@ INVARIANT NamesAreDarwins
 INVARIANT TablesWellFormed
 CHECK_DEADLOCK FALSE
 '''
+_REAL_IDENT = None
 DARWIN_ERRNO = None  # read from the spec module at run time (single source of truth)
 
 
@@ -86,7 +87,19 @@ def import_under(host):
     import errno, signal, socket  # noqa: the real ones must be loaded before they are substituted
     saved = {k: sys.modules[k] for k in ('errno', 'signal', 'socket')}
     fake = fake_host(host)
-    try:
+    # the host's IDENTITY too (sys.platform, os.name, platform.system(), os.uname): a decoder must not branch on it
+    import os as _os
+    import platform as _platform
+    ident = {'real': None, 'linux': ('linux', 'posix', 'Linux'), 'darwin': ('darwin', 'posix', 'Darwin'),
+             'other': ('freebsd14', 'posix', 'FreeBSD')}[host]
+    global _REAL_IDENT
+    if _REAL_IDENT is None:
+        _REAL_IDENT = (sys.platform, _os.name, _platform.system)
+    sys.platform, _os.name, _platform.system = _REAL_IDENT        # (the identity stays substituted WHILE the host's renderings
+    try:                                                          # are made - call-time branches see it too - until the next host)
+        if ident:
+            sys.platform, _os.name = ident[0], ident[1]
+            _platform.system = lambda s_=ident[2]: s_
         if fake:
             sys.modules['errno'], sys.modules['signal'], sys.modules['socket'] = fake
         importlib.import_module('pykdebugparser.traces_parser')
